@@ -239,6 +239,10 @@ class G:
             add("then", "->", "R", one("p", "u32", "&p", "if p < 10 { Ok::<u32, u8>(p) } else { Err(8u8) }", "Result<u32, u8>", annotate=True))
             add("then", "->", "I", one("p", "u32", "&p", "vec![p, p / 2, 3].into_iter()", None, annotate=True))
             add("then", "->", "P", one("p", "u32", "&p", "p ^ 5", "u32", annotate=True))
+            # the callee of `->` written as a call expression: evaluated where `(expr)(value)` stands — per call of an
+            # enclosing wrapper closure, not once when the chain is built
+            add("then", "->", "P", lambda: [("mk_inc(%d)" % self.nid(), 0)], "then/callexpr")
+            add("then", "->", "O", lambda: [("mk_p2o(%d)" % self.nid(), 0)], "then/callexpr_option")
             add("dot", "..", "O", lambda: [("checked_add(1)", 0)], "dot/checked_add")
             add("dot", ">.", "P", lambda: [("wrapping_pow(2)", 0)], "dot/pow")
             add("dot", "..", "B", lambda: [("is_power_of_two()", 0)], "dot/is_pow2")
@@ -255,10 +259,13 @@ class G:
             add("then", "->", "P", one("u", "usize", "&u", "u as u32", "u32", annotate=True))
         elif w == "PR":
             add("then", "->", "B", one("r", "&u32", "r", "*r > 1", "bool", annotate=True))
+            add("then", "->", "B", lambda: [("mk_pred(%d)" % self.nid(), 0)], "then/callexpr_pred")
             add("dot", "..", "P", lambda: [("clone()", 0)], "dot/clone")
         elif w == "E":
             add("then", "->", "R", one("e", "u8", "&e", "if e > 5 { Ok::<u32, u8>(e as u32) } else { Err(e) }", "Result<u32, u8>", annotate=True))
             add("then", "->", "E", one("e", "u8", "&e", "e.wrapping_mul(2)", "u8", annotate=True))
+            add("then", "->", "R", lambda: [("mk_e2r(%d)" % self.nid(), 0)], "then/callexpr_result")
+            add("then", "->", "E", lambda: [("mk_e2e(%d)" % self.nid(), 0)], "then/callexpr_err")
             add("dot", "..", "E", lambda: [("wrapping_add(3)", 0)], "dot/wrapping_add_u8")
         elif w == "PP":
             add("then", "->", "P", one("p", "(u32, u32)", "&p", "p.0 ^ p.1", "u32", annotate=True))
@@ -405,6 +412,17 @@ class G:
         if ent is None or ent[1] not in ent[2]:
             return None
         return Member(op, ent[0], [], ent[2][ent[1]], inner=[], explicit_close=explicit, tag="w:empty:" + op)
+
+    def lone_then_wrapper(self, w, op, explicit):
+        """The wrapper (w, op) whose inner chain is a single `->` with a call-expression callee."""
+        ent = self.WRAPS.get((w, op)) or (self.AWRAPS.get((w, op)) if self.flavour == "async" else None)
+        if ent is None:
+            return None
+        cands = [t for t in self.transitions(ent[1], False) if t[4].startswith("then/callexpr") and t[2] in ent[2]]
+        if not cands:
+            return None
+        t = self.rng.choice(cands)
+        return Member(op, ent[0], [], ent[2][t[2]], inner=[self.mk(t)], explicit_close=explicit, tag="w:lone_then:" + op)
 
     def wrapper(self, w, depth, last):
         """Returns a wrapper Member applicable in world w (or None)."""
@@ -1065,6 +1083,15 @@ def build_corpus(tier, seed):
                     return g.empty_wrapper(world, op, explicit)
                 for attempt in range(6):
                     if keep(gen_forced(0, rng, next_kind() if flav == "sync" else next_async_kind(), w, picke, 0)):
+                        break
+    # (b3) every wrapper around a lone `->` whose callee is a call expression
+    for flav, table in (("sync", G.WRAPS), ("async", G.AWRAPS)):
+        for (w, op), ent in table.items():
+            for explicit in (True, False):
+                def pickl(g, world, is_last, nth, op=op, explicit=explicit):
+                    return g.lone_then_wrapper(world, op, explicit)
+                for attempt in range(6):
+                    if keep(gen_forced(0, rng, next_kind() if flav == "sync" else next_async_kind(), w, pickl, 0)):
                         break
     # (b') a wrapper left open at the end of a step (implicit close, possibly several levels at once), the next step opened
     #      by a deferred wrapper or a deferred plain operator (step boundaries and wrapper nesting interact here)
